@@ -309,13 +309,14 @@ def _run_history(case, stats, root, target, TARGET):
             call["extra_args"] = case["extra_args"]
         # ---- run it under the seam (single actor: op log, no scheduling)
         sim = seam.Simulation(root, Tape(values=[]), seam.Knobs(), record_unscoped=True)
+        sim.claims_outside = True
         a = sim.add_actor("c", make_call(call, root))
         sim.run()
         if sim.bypass:
             raise seam.HarnessError(f"seam bypass: {sim.bypass[:3]}")
         out = outcome_of(call, a)
         snap1 = fsmodel.snapshot(root)
-        outside_writes = [(n_, p_) for _, n_, p_, _ in sim.unscoped
+        outside_writes = [(n_, p_) for _, n_, p_ in sim.outside_mutations] or [(n_, p_) for _, n_, p_, _ in sim.unscoped
                           if (n_ in ("mkdir", "rmdir", "replace", "rename", "unlink", "remove", "chmod", "truncate", "symlink", "link", "utime")
                               or (n_.startswith("open:") and any(c_ in n_[5:] for c_ in "wax+")))
                           and not p_.startswith(("/dev/", "/proc/"))]
